@@ -7,34 +7,44 @@ subtract with overflow" while it RENDERS the failure of an ordinary assertion (`
 `assert_eq(0.5, 3, 1)`, `assert_eq(0.05, 3, 0.1)`: the difference / an operand is printed with as many decimals as eps
 has).  The `max_significant_digits` branch of the same function always keeps at least one digit and is not affected.
 
-Rule (sanitiser dominates sink).  If some function of the crate builds an FmtFloatConfig with both
-`max_decimal_digits(..)` and `round()`, then in every function that calls `pretty_dtoa::dtoa(v, cfg)` the value `v` is a
-local that is (re)bound from an expression which calls f64::round, directly or through one helper of the crate — i.e.
-the value is rounded to the requested decimals in the crate's own arithmetic, and pretty_dtoa has nothing left to carry.
+Rule (sanitiser dominates sink, and the sanitiser is exact).  If some function of the crate builds an FmtFloatConfig
+with both `max_decimal_digits(..)` and `round()`, then in every function that calls `pretty_dtoa::dtoa(v, cfg)` (a) the
+value `v` is a local bound from an expression that calls a helper of the crate (the sanitiser), and (b) that helper does
+not scale by a power of ten in binary floating point (`powi` / `powf`): 10^p is inexact above p = 22, so
+`(x * 10^26).round() / 10^26` turns 1e-26 into 9.999999999999999e-27, whose digits are all cut off and rounded up —
+the very overflow, now for every tolerance below 1e-22 (`assert_eq(proton_mass, 1.67e-27 kg, 1e-30 kg)`; my first
+repair did exactly that, found by the audit H20).  The decision has to be taken on the decimal representation.
 """
 from core import RuleOut
 from hirlib import callee, local_of, peel, walk
 
 
-def _calls_round(crate, e, depth=1):
+def _helpers(crate, e):
+    """crate-local functions called in e"""
+    res = []
     for x in walk(e):
         if x.get("k") in ("MethodCall", "Call"):
+            c = (callee(x) or "").split("::<")[0]
+            if c in crate.hir and crate.hir[c].get("body") is not None:
+                res.append(c)
+    return res
+
+
+def _inexact_scaling(crate, path):
+    b = crate.hir[path]
+    for x in walk(b["body"]):
+        if x.get("k") in ("MethodCall", "Call"):
             c = callee(x) or ""
-            if c.endswith("f64::round") or c.endswith("f64>::round") or c.endswith("::f64::round") or c.endswith("<impl f64>::round"):
-                return True
-            if depth > 0:
-                cc = c.split("::<")[0]
-                for d, b in crate.hir.items():
-                    if d == cc or d.replace("crate::", "") == cc.replace("crate::", "").replace("numbat::", ""):
-                        if _calls_round(crate, b["body"], depth - 1):
-                            return True
-    return False
+            if c.endswith(("f64::powi", "f64::powf", "<impl f64>::powi", "<impl f64>::powf")) or (x.get("k") == "MethodCall" and x["name"] in ("powi", "powf") and crate.ty(x) in ("f64", "f32")):
+                return crate.loc(b, x)
+    return None
 
 
 def rule_dtoaround(crate):
     out = RuleOut("DTOAROUND", "a value printed by pretty_dtoa with max_decimal_digits + round() is rounded to that many decimals first (pretty_dtoa overflows when every digit is cut off and the remainder rounds up)")
     builders = []
     sinks = []
+    n_helpers = 0
     for d, b in sorted(crate.hir.items()):
         if "::tests::" in d:
             continue
@@ -59,10 +69,19 @@ def rule_dtoaround(crate):
             continue
         v = local_of(x["args"][0]) if x.get("args") else None
         inits = [s_ for s_ in walk(b["body"]) if s_.get("k") == "Let" and s_["pat"].get("k") == "Binding" and s_["pat"].get("id") == v and s_.get("init") is not None]
-        if v is not None and any(_calls_round(crate, s_["init"]) for s_ in inits):
-            out.ok("sink:%s" % short, f, l, "the printed value is bound from an expression that rounds it (f64::round) before dtoa is called")
-        else:
-            out.violation("sink:%s" % short, f, l, "the value handed to pretty_dtoa::dtoa is not rounded first although %s asks for `max_decimal_digits(p).round()`: for a non-zero value below 10^-p whose first cut-off digit is >= 5 pretty_dtoa removes every digit and then carries into `digits[len - 1]` — `assert_eq(1, 1.5, 0)` aborts with 'attempt to subtract with overflow' while its failure message is rendered" % ", ".join(x_[0].replace("crate::", "") for x_ in builders))
-    out.analysed = {"dtoa_call_sites": len(sinks), "decimal_rounding_configs": len(builders)}
+        helpers = [h for s_ in inits for h in _helpers(crate, s_["init"])] if v is not None else []
+        if not helpers:
+            out.violation("sink:%s" % short, f, l, "the value handed to pretty_dtoa::dtoa is not sanitised first although %s asks for `max_decimal_digits(p).round()`: for a non-zero value below 10^-p whose first cut-off digit is >= 5 pretty_dtoa removes every digit and then carries into `digits[len - 1]` — `assert_eq(1, 1.5, 0)` aborts with 'attempt to subtract with overflow' while its failure message is rendered" % ", ".join(x_[0].replace("crate::", "") for x_ in builders))
+            continue
+        out.ok("sink:%s" % short, f, l, "the printed value is bound from a call of %s before dtoa is called" % ", ".join(h.split("::")[-1] for h in helpers))
+        for h in helpers:
+            n_helpers += 1
+            bad = _inexact_scaling(crate, h)
+            hb = crate.hir[h]
+            if bad:
+                out.violation("sanitiser:%s:inexact-scaling" % h.replace("crate::", ""), bad[0], bad[1], "the sanitiser scales by a power of ten in binary floating point (`powi`/`powf`): 10^p is inexact above p = 22, so rounding 1e-26 to 26 decimals yields 9.999999999999999e-27 — all of its digits are cut off and rounded up inside pretty_dtoa, i.e. the overflow returns for every tolerance below 1e-22: `assert_eq(proton_mass, 1.67e-27 kg, 1e-30 kg)` and `assert_eq(2e-26, 0, 1e-26)` abort although they were rendered correctly without the sanitiser")
+            else:
+                out.ok("sanitiser:%s:inexact-scaling" % h.replace("crate::", ""), crate.file_of(hb), hb["line"], "no floating-point power of ten: the decision is taken on the decimal representation")
+    out.analysed = {"dtoa_call_sites": len(sinks), "decimal_rounding_configs": len(builders), "sanitisers": n_helpers}
     out.floor("dtoa_call_sites", len(sinks), 1)
     return out
